@@ -6,7 +6,7 @@ constructor the caller's PduConfig / parameter objects compared before and after
 import importlib, re
 
 ID = "C11"
-_NAMES = ["c02", "c03", "c07", "c17", "c06a", "c06b", "c06c"]
+_NAMES = ["c02", "c03", "c05", "c07", "c12", "c17", "c06a", "c06b", "c06c", "c01", "c15", "c20", "c08"]
 MODS = []
 for _n in _NAMES:
     try:
@@ -25,7 +25,7 @@ ORACLE_LIMIT = {"quick": 100000, "thorough": 1000000}
 def _ranges(m):
     if hasattr(m, "OP_RANGE"):
         return [m.OP_RANGE]
-    fam = {"c02": 5, "c03": 6, "c07": 14, "c17": 16}[m.__name__.rsplit(".", 1)[1]]
+    fam = {"c01": 1, "c20": 2, "c02": 5, "c03": 6, "c15": 7, "c08": 10, "c05": 12, "c07": 14, "c12": 15, "c17": 16}[m.__name__.rsplit(".", 1)[1]]
     return [(fam * 100, fam * 100 + 99)]
 
 
